@@ -217,7 +217,7 @@ func ruleColSam(c *Ctx, r *Rep, tier string) {
 		r.Instance(rule, 1)
 		plus := false
 		for _, a := range wargs {
-			if polyOf(strip(a), nil).eq(pAtom("$0." + f).add(pConst(1), 1)) {
+			if polyOf(strip(a), nil).eq(pAtom("$0."+f).add(pConst(1), 1)) {
 				plus = true
 			}
 		}
@@ -225,7 +225,7 @@ func ruleColSam(c *Ctx, r *Rep, tier string) {
 		allInstrs(rfn, func(ins ssa.Instruction) {
 			if st, ok := ins.(*ssa.Store); ok {
 				if fa, ok := st.Addr.(*ssa.FieldAddr); ok && fieldVarOfAddr(fa).Name() == f {
-					if polyOf(st.Val, nil).eq(pAtom("$0." + f).add(pConst(1), -1)) {
+					if polyOf(st.Val, nil).eq(pAtom("$0."+f).add(pConst(1), -1)) {
 						minus = true
 					}
 				}
